@@ -144,12 +144,37 @@ def sync_lock(crate):
         shutil.copy(os.path.join(REPO, "Cargo.lock"), dst)
 
 
-def kani_cmd(h, tdir, playback=False):
+def kani_cmd(h, tdir, playback=False, unwindset=None):
     cmd = ["cargo", "kani", "--target-dir", tdir] + KANI_FLAGS + ["--harness", h.full, "--exact"]
     if playback:
         cmd += ["-Z", "concrete-playback", "--concrete-playback=print"]
-    cmd += CBMC_FLAGS
+    flags = list(CBMC_FLAGS)
+    if unwindset:
+        i = flags.index("--unwindset") + 1
+        us = {"memcmp.0": 18}
+        us.update(unwindset)
+        flags[i] = ",".join(f"{k}:{v}" for k, v in sorted(us.items()))
+    cmd += flags
     return cmd
+
+
+UNWIND_CACHE = os.path.join(VERIF, "unwind_cache.json")
+
+
+def load_unwind_cache():
+    try:
+        return json.load(open(UNWIND_CACHE))
+    except Exception:
+        return {}
+
+
+def loops_not_unwound(logfile):
+    ids = set()
+    for l in open(logfile, errors="replace"):
+        m = re.match(r"Not unwinding loop (\S+) iteration", l)
+        if m:
+            ids.add(m.group(1))
+    return ids
 
 
 def run_limited(cmd, cwd, cap_s, mem_gb, logfile):
@@ -412,6 +437,8 @@ def main(argv):
         pools[crate] = p
     gate = MemGate(TOTAL_MEM_GB)
     results = {}
+    unwind_cache = load_unwind_cache()
+    learnt = {}
     scale = 3 if a.tier == "thorough" else 1
 
     def work(h):
@@ -420,12 +447,32 @@ def main(argv):
         slot = pool.acquire()
         try:
             lf = os.path.join(LOGS, f"{prop}-{h.name}.log")
-            rc, dt = run_limited(kani_cmd(h, pool.dir(slot)), crate_dir(h.crate), h.cap * scale, h.mem, lf)
+            # per-loop bounds for library loops over long concrete strings (meta autounwind=N): the loop ids are
+            # learnt from the "Not unwinding loop" lines of a first run and cached (unwind_cache.json, committed);
+            # a stale cache only costs the extra run, the unwinding assertions stay on
+            uw = None
+            au = int(h.meta.get("autounwind", "0") or 0)
+            if au:
+                uw = {k: au for k in unwind_cache.get(h.full, [])} or None
+            rc, dt = run_limited(kani_cmd(h, pool.dir(slot), unwindset=uw), crate_dir(h.crate), h.cap * scale, h.mem, lf)
             r = parse_log(lf, rc)
+            rounds = 0
+            while au and r.status == "unwind" and rounds < 3:
+                ids = loops_not_unwound(lf)
+                if not ids or (uw and ids <= set(uw)):
+                    break
+                uw = dict(uw or {})
+                uw.update({k: au for k in ids})
+                learnt[h.full] = sorted(uw)
+                rc, dt2 = run_limited(kani_cmd(h, pool.dir(slot), unwindset=uw), crate_dir(h.crate), h.cap * scale, h.mem, lf)
+                dt += dt2
+                r = parse_log(lf, rc)
+                rounds += 1
+            r.unwindset = uw
             if r.status == "fail":
                 # second run with concrete playback to get the solver's values
                 lf2 = os.path.join(LOGS, f"{prop}-{h.name}.playback.log")
-                rc2, _ = run_limited(kani_cmd(h, pool.dir(slot), playback=True), crate_dir(h.crate), h.cap * scale * 2, h.mem, lf2)
+                rc2, _ = run_limited(kani_cmd(h, pool.dir(slot), playback=True, unwindset=uw), crate_dir(h.crate), h.cap * scale * 2, h.mem, lf2)
                 r2 = parse_log(lf2, rc2)
                 r.playback = r2.playback
             r.wall = dt
@@ -442,6 +489,9 @@ def main(argv):
     with ThreadPoolExecutor(max_workers=a.jobs) as ex:
         list(ex.map(work, hs))
 
+    if learnt and os.environ.get("VERIF_LEARN_UNWIND"):
+        unwind_cache.update(learnt)
+        json.dump(unwind_cache, open(UNWIND_CACHE, "w"), indent=1, sort_keys=True)
     known = load_known()
     # an open finding is keyed by the label of the assertion that exhibits it; a harness that serves several
     # properties reports it under each of them (with the finding's own property named)
